@@ -2,12 +2,13 @@
 from checks.tsutil import *
 
 ID = 'C09'
+EPOCH_MS = 1672534861000   # DATACAKE_EPOCH, in ms since 1970
 RULE = ('each case = one clock (init value) and 1-60 send/recv calls with injected wall readings '
         '(monotone, stalled, backwards, jumps, non-multiples of 4 ms) and remote stamps chosen relative to the '
         'clock/wall (behind, same time with smaller/equal/larger counter, ahead within/at/beyond the drift, own node id, '
         'counter 65534/65535, fractional 250-255); non-trivial = at least one successful send AND at least one of '
         '{accepted recv, refused call, stalled-or-backwards wall}; distinct by hash of the op lines')
-ASSUMPTIONS = ['wall clock readings are injected through the verif hook (get_datacake_timestamp override)',
+ASSUMPTIONS = ['wall clock readings are injected through the verif hook (get_datacake_timestamp override), or - send-unix - as the reading of the system clock itself, before the conversion to the datacake epoch (readings before 2023 included, D28)',
                'theorems assume WallOk = the wall reading is a multiple of 4 ms (the resolution of the packed stamp; get_datacake_timestamp rounds); since fix D16 there is no range condition: readings beyond the representable seconds are refused with Overflow, in the model and in the theorems']
 TRUSTED_BASE = ['correspondence: dcharness (real HLCTimestamp::send/recv) vs dcdriver (Datacake.Ts.send/recv) on generated call sequences',
                 'hook H1 (datacake-crdt feature verif)']
@@ -44,7 +45,14 @@ def gen_case(rng, n, idx):
         elif m < 8: wall = max(0, wall - rng.choice([4, 8, 1000, 5000, 4_200_000]))
         else: wall += rng.choice([DRIFT_MS, DRIFT_MS + 4, 10_000_000])
         if rng.chance(1, 2):
-            lines.append('send %d' % wall)
+            u = rng.below(16)
+            if u == 0:      # the SYSTEM clock reading is injected instead (D28): the same instant, expressed since 1970
+                lines.append('send-unix %d' % (EPOCH_MS + wall))
+            elif u == 1:    # a system clock which reads a time BEFORE the datacake epoch (2023-01-01): reads as the epoch itself
+                lines.append('send-unix %d' % rng.choice([0, 1, EPOCH_MS - 1, EPOCH_MS - 4, EPOCH_MS - 1000, 1656000000000, rng.below(EPOCH_MS)]))
+                wall = 0
+            else:
+                lines.append('send %d' % wall)
             if dts(clock) < norm_wall(wall): clock = pack(norm_wall(wall), 0, mynode)
             else: clock += 256
         else:
@@ -111,6 +119,8 @@ def oracle(case, impl):
         t = line.split()
         if t[0] == 'init':
             clock = int(t[1]); mynode = node(clock); continue
+        if t[0] == 'send-unix':   # the reading of the system clock: before the epoch it counts as the epoch (truncated subtraction)
+            t = ['send', str(max(0, int(t[1]) - EPOCH_MS))]
         if t[0] not in ('send', 'recv'):
             continue
         toks, after = _parse(out)
@@ -160,7 +170,7 @@ def stats(verdicts):
     for v in verdicts:
         for l, o in zip(v['case'], v['impl']):
             k = l.split()[0]
-            if k in ('send', 'recv'):
+            if k in ('send', 'recv', 'send-unix'):
                 key = k + ':' + o.split()[0]
                 d[key] = d.get(key, 0) + 1
     d['case_lengths'] = {'<=12': sum(1 for v in verdicts if len(v['case']) <= 15), '>12': sum(1 for v in verdicts if len(v['case']) > 15)}
